@@ -49,10 +49,11 @@ declare_class('saml2_tophat.sigver:CertHandler', fields={})
 declare_class('saml2_tophat.sigver:CryptoBackend', fields={})
 declare_class('saml2_tophat.sigver:SecurityContext', fields={
     'id_attr': 'Str',
-    'crypto': "Inst('saml2_tophat.sigver:CryptoBackend')",
+    # the xmlsec1 backend is the one in scope; CryptoBackendXMLSecurity (optional pyXMLSecurity) is not covered
+    'crypto': "Inst('saml2_tophat.sigver:CryptoBackendXmlSec1')",
     'sec_backend': 'Any',
     'key_file': 'Any', 'key_type': 'Any',
-    'cert_file': 'Any', 'cert_type': 'Any',
+    'cert_file': 'Opt(Str)', 'cert_type': 'Str',
     'enc_key_files': 'Opt(List(Any))', 'enc_key_type': 'Any',
     'encryption_keypairs': 'Any', 'enc_cert_type': 'Any',
     'my_cert': 'Any',
